@@ -26,12 +26,13 @@ MANIFEST = dict(
          "unit satisfy the defining equations of dimensional analysis (C03_table_base/_derived); canonicalize "
          "preserves value and dimension for any sort order (C03_canon); convert_to with its common-factor "
          "cancellation returns the target unit, the same quantity, and only for equal exponent vectors "
-         "(C03_convert); hence for every expression tree over + - * / integer powers, negation and conversion the "
+         "(C03_convert), and succeeds whenever the exponent vectors are equal (C03_convert_complete: canonical forms "
+         "of base-unit lists are unique under the name-based sort keys the code computes); hence for every expression tree over + - * / integer powers, negation and conversion the "
          "model's result in base units equals exact dimensional arithmetic (C03_expr, induction over trees; all "
          "closed under the global context). Exact level only: f64 rounding is outside the model and is bounded by "
          "the correspondence check (relative tolerance 1e-9 on the operand magnitude); non-integer powers and the "
-         "five Planck units (half-integer exponents) are outside the exact scope and only checked numerically; "
-         "completeness of convert_to (equal dimensions => success) is validated by correspondence, not proved.",
+         "five Planck units (half-integer exponents) are outside the exact value scope and only checked numerically "
+         "(C03_convert_complete does cover them).",
     design_ref="DESIGN.md §6 C03; design/qty.md",
     note="Trusted: Coq kernel + vm_compute; the hand port Qty/Model.v (validated on every run against the real "
          "Quantity/Unit code by direct calls and through Context::interpret); the hook dump of the unit table and "
@@ -40,9 +41,9 @@ MANIFEST = dict(
               "table lemmas + model/implementation correspondence by vm_compute",
 )
 
-THEOREMS = ["C03_table_base", "C03_table_derived", "C03_canon", "C03_convert", "C03_expr"]
+THEOREMS = ["C03_table_base", "C03_table_derived", "C03_canon", "C03_convert", "C03_convert_complete", "C03_expr"]
 TABLE_LEMMAS = ["prelude_wf", "prelude_pos", "prelude_names_distinct", "prelude_embedded",
-                "prelude_exact_wf", "prelude_exact_int", "prelude_exact_pos"]
+                "prelude_exact_wf", "prelude_exact_int", "prelude_exact_pos", "prelude_exact_names_distinct"]
 REL = 1e-9
 
 
@@ -95,13 +96,15 @@ def run(chk):
         elif mode == "B":
             lines.append("R %s base" % qtylib.tree_rpn(t))
         else:
-            lines.append("S@r let r = " + src)
+            lines.append("S@r let r = " + src + "␤r")
     outs = common.run_harness(binary, "qty", lines)
     obs = [qtylib.obs_of_src(o) if cases[n][1] == "S" else Obs(o) for n, o in enumerate(outs)]
+    shown = [Obs(o.split("\t")[0]) if cases[n][1] == "S" else None for n, o in enumerate(outs)]   # displayed (simplified) result
 
     risky = [qtylib.range_risk(tbl, t) for (_, _, t, _) in cases]
     # ---- oracle: the property itself on the implementation
     failing = []
+    text_checked = 0
     skipped_range = skipped_scope = 0
     for n, (kind, mode, t, src) in enumerate(cases):
         ob = obs[n]
@@ -123,6 +126,21 @@ def run(chk):
         why = qtylib.check_tree_against_exact(tbl, t, ob, REL)
         if why:
             failing.append((n, why))
+            continue
+        # the displayed unit text is the rendering of the factor list (order, prefixes, exponents)
+        for o2 in (ob, shown[n]):
+            if o2 is not None and o2.kind == "Q":
+                text_checked += 1
+                want = qtylib.display_unit(tbl, o2.unit)
+                if not o2.display.endswith(want) or (want == "" and not o2.display.replace("_", "").replace("e+", "e").lstrip("-").replace(".", "").replace("e-", "e").replace("inf", "1").replace("NaN", "1").isalnum()):
+                    failing.append((n, "displayed %r, the unit factor list %s renders as %r" % (
+                        o2.display, qtylib.show_unit(o2.unit), want)))
+                    break
+        # the displayed (simplified) value denotes the same quantity
+        if shown[n] is not None and shown[n].kind == "Q" and shown[n].finite() and tbl.exact_unit(shown[n].unit):
+            why = qtylib.check_tree_against_exact(tbl, t, shown[n], REL)
+            if why:
+                failing.append((n, "displayed result: " + why))
 
     # ---- model vs implementation
     items, idx = [], []
@@ -146,9 +164,32 @@ def run(chk):
             want = "OOS"
         items.append((term, want))
         idx.append(n)
+        sh = shown[n]
+        if mode == "S" and scope and sh is not None and sh.kind == "Q" and sh.finite() and tbl.exact_unit(sh.unit):
+            tol2 = qtylib.abs_tol(tbl, t, sh.unit, REL)
+            items.append(("r_evalsimp PX_env prelude_n_exact %s %s %s" % (
+                qtylib.coq_Q(tol2), qtylib.coq_Q(Fraction(sh.value)), qtylib.tree_coq(tbl, t)),
+                "ok:" + qtylib.show_unit(sh.unit)))
+            idx.append(("shown", n))
     bad = qtylib.coq_mismatches(items, "c03")
-    mism = {idx[k]: v for k, v in bad.items()}
+    mism, registry_rewrites, shown_oos = {}, 0, 0
+    for k, v in bad.items():
+        if isinstance(idx[k], tuple):
+            n = idx[k][1]
+            if v == "OOS":
+                shown_oos += 1
+            elif v.startswith("ok:") and len(qtylib.parse_unit(v.split(":")[1])) > len(shown[n].unit):
+                registry_rewrites += 1      # the session's unit registry found a simpler unit than the heuristics
+            elif v.startswith("ok:") and sorted(qtylib.parse_unit(v.split(":")[1])) == sorted(shown[n].unit):
+                registry_rewrites += 0      # same factors, tie order of equal sort keys (sort_unstable)
+            else:
+                mism[n] = "displayed result: model " + v
+        else:
+            mism[idx[k]] = v
 
+    if os.environ.get("NV_DEBUG"):
+        for n in list(mism)[:8]:
+            print("MISMATCH", cases[n][1], cases[n][3], "| impl", outs[n][:260], "| model", mism[n][:200])
     # ---- decide
     reported = 0
     for n, why in failing[:3]:
@@ -208,6 +249,8 @@ def run(chk):
         "outcomes": dict(collections.Counter(o.kind + (":" + o.err if o.kind == "E" else "") for o in obs)),
         "skipped_float_range": skipped_range, "outside_exact_scope": skipped_scope,
         "model_mismatches": len(mism), "oracle_failures": len(failing),
+        "displayed_unit_texts_checked": text_checked, "displayed_results_vs_model": sum(1 for i in idx if isinstance(i, tuple)),
+        "displayed_results_rewritten_by_registry": registry_rewrites, "displayed_results_outside_exact_scope": shown_oos,
         "relative_tolerance": REL,
         "samples": [{"kind": cases[i][0], "mode": cases[i][1], "rpn": qtylib.tree_rpn(cases[i][2]),
                      "source": cases[i][3], "implementation": obs[i].raw} for i in pick],
